@@ -574,7 +574,8 @@ def _check(case, ctx, work):
                 ops_on_line = [t for t in ftoks if t.line == line and t.kind == 'op' and t.text in RELOPS]
                 if not ops_on_line:
                     extra = ':no-old-operator-token-on-reported-line'
-            fail(f'C43:relint:{rule}:{w}{extra}', f'after fix: {rule} still reports "{msg}" at line {line}')
+            fail(f'C43:relint:{rule}:no-old-operator-token-on-reported-line' if extra else f'C43:relint:{rule}:{w}',
+                 f'after fix: {rule} still reports "{msg}" at line {line}')
 
     # 2. tokens, strings, comments against the expected fixed text
     try:
@@ -582,9 +583,22 @@ def _check(case, ctx, work):
     except LexError as e:
         fail('C43:text:fixed-file-not-lexable', str(e))
         act = None
+    if act is not None:
+        # the check conditionals of fixed dummies may be removed (what the rule does) or stay (statement: "other text unchanged")
+        kept_text, krc = lintgen.render_file(model, fixed=True, keep_checks=True)
+        present = set()
+        for s_ in act:
+            if s_[0] != 'decl' and len(s_) >= 2 and s_[-2] == 'stop' and s_[-1].isdigit() and int(s_[-1]) in krc.removable_codes:
+                present.add(int(s_[-1]))
+        if present:
+            ctx.count('ubound:check-conditional-kept-by-fix', len(present))
+            expected = _drop_blocks(kept_text, set(krc.removable_codes) - present)
     exp, exp_lines, exp_str, exp_com = canon_statements(expected)
     if act is not None:
-        compare_statements(exp, act, act_lines, fail)
+        left_old = [0]
+        compare_statements(exp, act, act_lines, fail, left_old)
+        if left_old[0]:
+            ctx.count('fix:statement-with-old-style-operator-left-as-is', left_old[0])
         if act_str != exp_str:
             if [str_value(x) for x in act_str] == [str_value(x) for x in exp_str]:
                 k = next(i for i, (x, y) in enumerate(zip(exp_str, act_str)) if x != y)
@@ -606,7 +620,10 @@ def _check(case, ctx, work):
                 if tag in ('replace', 'delete'):
                     c0 = exp_com[i1]
                     ctxt = c0['ctx']
-                    if ctxt == 'trail':
+                    exp_line = expected.split('\n')[c0['line'] - 1]
+                    if tag == 'replace' and ctxt == 'trail' and any('!' in t.text for t in lex(exp_line)[0] if t.kind == 'str'):
+                        ctxt = 'trailing-a-statement-with-exclamation-mark-in-string'
+                    elif ctxt == 'trail':
                         ctxt = 'trailing:' + _stmt_class_at(exp, exp_lines, c0['line'])
                     elif ctxt == 'cont':
                         ctxt = 'inside-continued-statement'
@@ -615,21 +632,60 @@ def _check(case, ctx, work):
                     fail(f'C43:comment:{"changed" if tag == "replace" else "lost"}:{ctxt}',
                          f'expected comments {ec[i1:i2]} got {ac[j1:j2]}')
                 else:
-                    fail('C43:comment:added', f'unexpected comments {ac[j1:j2]}')
+                    prev = next((c for c in (exp_com[i1 - 1] if i1 > 0 else None, exp_com[i1] if i1 < len(exp_com) else None)
+                                 if c is not None and all(x == c['text'] for x in ac[j1:j2])), None)
+                    if prev is not None:
+                        where_ = ('trailing:' + _stmt_class_at(exp, exp_lines, prev['line'])) if prev['ctx'] == 'trail' else prev['ctx']
+                        fail(f'C43:comment:duplicated:{where_}', f'comment {prev["text"]!r} appears {1 + j2 - j1} times')
+                    else:
+                        fail('C43:comment:added', f'unexpected comments {ac[j1:j2]}')
 
     # 3. behaviour
     before = build_and_run(work, 'before', text, lintgen.render_driver(model, case['inputs'], False, case['extra']))
     if before[0] != 'ok':
         raise RuntimeError(f'generator produced a program that fails before the fix ({before[0]}): {before[1][:800]}\n{text}')
     after = build_and_run(work, 'after', fixed, lintgen.render_driver(model, case['inputs'], True, case['extra']))
-    risky = sorted(flags & {'bound-local', 'bound-smaller'}) + (['actual-larger'] if case['extra'] and fixed_dummies else [])
-    suffix = (':' + '+'.join(risky)) if risky else ''
+    # root causes the generator can name by construction
+    shrunk = bool(fixed_dummies) and ('bound-smaller' in flags or case['extra'])
     if after[0] == 'compile':
-        fail(f'C43:behaviour:fixed-file-does-not-compile{suffix}', _first_error(after[1]))
+        if 'bound-local' in flags and re.search(r"Variable .(nl|ml). cannot appear in the expression", after[1]):
+            fail('C43:behaviour:fixed-file-does-not-compile:local-variable-as-explicit-extent', _first_error(after[1]))
+        else:
+            fail('C43:behaviour:fixed-file-does-not-compile', _first_error(after[1]))
     elif after[0] != 'ok':
-        fail(f'C43:behaviour:fixed-program-fails-at-run-time{suffix}', after[1][-400:])
+        fail('C43:behaviour:fixed-program-fails-at-run-time' + (':declared-extent-smaller-than-actual' if shrunk else ''),
+             after[1][-400:])
     elif after[1] != before[1]:
-        fail(f'C43:behaviour:output-differs{suffix}', _first_diff(before[1], after[1]))
+        fail('C43:behaviour:output-differs' + (':declared-extent-smaller-than-actual' if shrunk else ''),
+             _first_diff(before[1], after[1]))
+
+
+def _drop_blocks(text, codes):
+    """remove the check conditionals with the given STOP codes from a text rendered by lintgen (one statement per line there)"""
+    lines = text.split('\n')
+    out = []
+    i = 0
+    while i < len(lines):
+        ln = lines[i]
+        low = ln.strip().lower()
+        if low.startswith('if (') and 'ubound' in low:
+            if low.endswith('then'):
+                j = i
+                while not lines[j].strip().lower().replace(' ', '') == 'endif':
+                    j += 1
+                m = [re.search(r'stop (\d+)$', x.strip().lower()) for x in lines[i:j + 1]]
+                code = next(int(x.group(1)) for x in m if x)
+                if code in codes:
+                    i = j + 1
+                    continue
+            else:
+                m = re.search(r'stop (\d+)$', low)
+                if m and int(m.group(1)) in codes:
+                    i += 1
+                    continue
+        out.append(ln)
+        i += 1
+    return '\n'.join(out)
 
 
 def _dump(model):
@@ -659,10 +715,11 @@ def _stmt_class_at(sts, lines, line):
     return stmt_class(best) if best else '?'
 
 
-def compare_statements(exp, act, act_lines, fail):
+def compare_statements(exp, act, act_lines, fail, left_old):
     exp = [unquote(s) for s in exp]
     act = [unquote(s) for s in act]
-    sm = difflib.SequenceMatcher(None, exp, act, autojunk=False)
+    # align on Fortran 90 spelling of the relational operators (the targeted tokens)
+    sm = difflib.SequenceMatcher(None, exp, [relops_to_f90(s) for s in act], autojunk=False)
     reported = set()
     for tag, i1, i2, j1, j2 in sm.get_opcodes():
         if tag == 'equal':
@@ -673,13 +730,22 @@ def compare_statements(exp, act, act_lines, fail):
                 if se == sa:
                     continue
                 if relops_to_f90(sa) == se:
-                    sig = f'C43:text:operator-not-replaced:{stmt_class(se)}'
+                    # an old-style operator that the rule did not replace is unchanged text; whether the rule
+                    # still reports it is decided by the re-lint oracle
+                    left_old[0] += 1
+                    continue
+                sa = relops_to_f90(sa)
+                if sa == se:
+                    continue
+                if _noparen(sa) == _noparen(se):
+                    sig = 'C43:text:redundant-parentheses-dropped' if len(sa) < len(se) else 'C43:text:parentheses-added'
                 else:
                     sig = f'C43:text:statement-changed:{stmt_class(se)}'
                 if sig not in reported:
                     reported.add(sig)
                     fail(sig, f'expected `{" ".join(se)}` got `{" ".join(sa)}`')
             continue
+        a = [relops_to_f90(x) for x in a]
         if e:
             cls = stmt_class(e[0])
             kind = 'statement-dropped' if not a else 'statements-differ'
@@ -695,9 +761,13 @@ def compare_statements(exp, act, act_lines, fail):
                 fail(sig, 'unexpected ' + ' ; '.join(' '.join(s) for s in a[:3]))
 
 
+def _noparen(s):
+    return tuple(t for t in s if t not in ('(', ')'))
+
+
 def run_shard(ctx):
     n = ctx.scale(300, 6000)
-    ctx.given(cases(ctx.thorough), check_case, n, label='files')
+    ctx.given(cases(ctx.thorough), check_case, n, label='files', shrink=not os.environ.get('LOKIVERIF_NOSHRINK'))
 
 
 def replay(case, ctx):
